@@ -142,3 +142,10 @@ FINDINGS += [
 FINDINGS += [
  F("C10", "C10 Domain.ReadFrom keeps the receiver's tables when the source has no precomputation", "31f68a3", "ReadFrom of a domain serialised WithoutPrecompute into a receiver that already held tables left the old twiddles / coset tables in place: CosetTable(), CosetTableInv(), Twiddles(), TwiddlesInv() returned the previous domain's tables (other shift, other size) with a nil error (found by the readintotab ops added for seed C10r3-1)", "C10 readintotab 8 5:1:7:n koalabear 7f000001 6832fe4a 3 dif 1 0 0 3 0 f017,20b6,aef6,a097,bc41,91af,58e9,82d   (Go: stale x4 before the repair; model: err x4)", "ecc/*/fr/fft/domain.go, field/*/fft/domain.go ReadFrom"),
 ]
+
+FINDINGS += [
+ # ---------------------------------------------------------------- fourth session (re-derived by the `obj` ops added after the round-4 seeding agents' side observations)
+ F('C20', 'C20 grow of a BitReverse-layout polynomial', '459dbf6', 'polynomial.grow appended the zero coefficients at the end of the vector whatever the layout: a Canonical polynomial stored in BitReverse layout and converted (ToLagrange / ToCanonical / ToLagrangeCoset) on a LARGER domain became another polynomial (Evaluate changed; theorem C20_grow had the hypothesis Canonical/Regular, the excluded point was the defect; now C20_grow_bitreverse)', 'C20 obj bn254 <q> 7 <w> <g> <n> cb 1,1 D10,Ex,C2,B,Ex,F,K3,…  (Go cb/0/2/1,1,0,0; model cb/0/2/1,0,1,0)', 'ecc/*/fr/iop/polynomial.go grow'),
+ F('C20', 'C20 ShallowClone keeps a stale coset shift', '6bf0f4d', 'Form lives in the shared *polynomial, coset was a field of the wrapper: after q := p.ShallowClone(); p.ToLagrangeCoset(d) the clone q is in LagrangeCoset form with coset = 0 and q.Evaluate(x) divides x by 0 (returns the constant coefficient)', 'C20 obj bn254 <q> 7 <w> <g> <n> cr <8 coeffs> D18,Ex,H,K4,Ex,x,F,Ex,…', 'ecc/*/fr/iop/polynomial.go Polynomial.coset / ShallowClone'),
+ K('C20', 'C20 ToLagrangeCoset on an object already in LagrangeCoset form overwrites the coset shift', 'ToLagrangeCoset(d) stores d.FrMultiplicativeGen into p.coset BEFORE its early return for objects that are already in LagrangeCoset form: a second call with a domain of another shift leaves the values untouched but replaces the shift, so Evaluate (and everything built on it) denotes another polynomial. Not repaired: that early assignment is currently the only way an object CREATED directly in LagrangeCoset form (NewPolynomial(v, Form{LagrangeCoset, …})) receives its shift, so the repair needs a design decision (constructor argument or "set only when zero"); only `obj` lines whose script converts onto a coset, evaluates, then calls K again under another d<shift> match', r'^C20 obj \S+ [0-9a-f]+ 7 [0-9a-f]+ [0-9a-f]+ [0-9a-f]+ [clk][rb] \S+ (?:d[0-9a-f]+,)?(?:K[0-9a-f]+,){1,2}(?:d[0-9a-f]+,K[0-9a-f]+,)?E[0-9a-f]+,d[0-9a-f]+,K[0-9a-f]+,F,E', r'^[0-9a-f]+ k[rb]/0/[0-9a-f]+/[0-9a-f,]+ [0-9a-f]+ ', r'^[0-9a-f]+ k[rb]/0/[0-9a-f]+/[0-9a-f,]+ [0-9a-f]+ ', 'ecc/*/fr/iop/polynomial.go ToLagrangeCoset:369', ''),
+]
